@@ -8,13 +8,13 @@
 (*        TLC interleaves (BFS: all, -simulate: sampled) the scenario's     *)
 (*        writer script, one full collector run and one reader session.     *)
 (* Only calls are printed - never expected results.                         *)
-EXTENDS PartRefs, Json
+EXTENDS PartRefs, Json, PartRefsPat
 
-CONSTANTS Mode, Patterns, Depth, Scn
+CONSTANTS Mode, Depth, ScnSet
 
-VARIABLES hist, pat, wpos, gst, rst
+VARIABLES hist, pat, scn, wpos, gst, rst
 
-gvars == <<S, hist, pat, wpos, gst, rst>>
+gvars == <<S, hist, pat, scn, wpos, gst, rst>>
 
 C(op, k, c, s, u, n, src, j) == Call(op, k, c, s, u, n, src, j)
 D  == "default"
@@ -65,10 +65,10 @@ Scenarios == <<
   [pre |-> <<Put("k1", "a", D), Put("k2", "a", Other), RegOver("k2"), Del("k2"), Tick>>,
    w |-> <<Copy("k1", "k2", Other), Trans("k1", Other)>>, gc |-> TRUE, rd |-> ""]
 >>
-Sc == Scenarios[Scn]
+Sc == Scenarios[scn]
 
-RECURSIVE Run(_, _)
-Run(T, prog) == IF prog = <<>> THEN T ELSE Run(Eff(T, Head(prog)), Tail(prog))
+
+Run(T, prog) == RunProg(T, prog)
 
 \* ------------------------------------------------------------- walk mode
 CatCalls(T, cat) ==
@@ -96,9 +96,10 @@ ScnCalls(T) ==
   \cup (IF ~RdDone THEN (IF rst = "new" THEN {C("RdResolve", Sc.rd, "", "", "", 0, "", 0)} ELSE RdCalls(T)) ELSE {})
 ScnFinished == wpos > Len(Sc.w) /\ GcDone /\ RdDone
 
-GenInit == /\ pat \in Patterns
-           /\ S = IF Mode = "scn" THEN Run(S0, Sc.pre) ELSE S0
-           /\ hist = IF Mode = "scn" THEN Sc.pre ELSE <<>>
+GenInit == /\ pat \in (IF Mode = "scn" THEN {<<>>} ELSE Patterns)
+           /\ scn \in (IF Mode = "scn" THEN ScnSet ELSE {1})
+           /\ S = IF Mode = "scn" THEN Run(S0, Scenarios[scn].pre) ELSE S0
+           /\ hist = IF Mode = "scn" THEN Scenarios[scn].pre ELSE <<>>
            /\ wpos = 1 /\ gst = "new" /\ rst = "new"
 
 Step(a) == /\ S' = Eff(S, a)
@@ -106,7 +107,7 @@ Step(a) == /\ S' = Eff(S, a)
            /\ wpos' = IF Mode = "scn" /\ a.op \notin {"Gc", "Tick", "RdResolve", "RdOpen", "RdRead", "RdClose"} THEN wpos + 1 ELSE wpos
            /\ gst' = IF a.op = "Gc" THEN (IF S'.gc.pc = "idle" THEN "done" ELSE "run") ELSE gst
            /\ rst' = IF a.op = "RdClose" THEN "done" ELSE IF a.op = "RdResolve" THEN "run" ELSE rst
-           /\ UNCHANGED pat
+           /\ UNCHANGED <<pat, scn>>
 
 GenNext == IF Mode = "scn"
            THEN ~ScnFinished /\ \E a \in ScnCalls(S) : Step(a)
@@ -115,5 +116,5 @@ GenNext == IF Mode = "scn"
 GenSpec == GenInit /\ [][GenNext]_gvars
 
 Finished == IF Mode = "scn" THEN ScnFinished ELSE Len(hist) >= Depth
-Emit == IF Finished THEN PrintT(ToJson([prog |-> hist])) ELSE TRUE
+Emit == IF Finished THEN PrintT(ToJson([prog |-> hist, scn |-> IF Mode = "scn" THEN scn ELSE 0])) ELSE TRUE
 =============================================================================
